@@ -1,7 +1,7 @@
 use std::ffi::{c_int, c_void};
 use libc::{socklen_t, timeval};
 use crate::syscall::get_time_limit;
-use crate::syscall::unix::{RECV_TIME_LIMIT, SEND_TIME_LIMIT};
+use crate::syscall::unix::{remember_recv_time_limit, remember_send_time_limit};
 
 trait SetsockoptSyscall {
     extern "C" fn setsockopt(
@@ -43,10 +43,10 @@ impl<I: SetsockoptSyscall> SetsockoptSyscall for NioSetsockoptSyscall<I> {
         if 0 == r && libc::SOL_SOCKET == level {
             if libc::SO_SNDTIMEO == name {
                 // remember the latest value (the option may be set any number of times)
-                _ = SEND_TIME_LIMIT.insert(socket, get_time_limit(unsafe { &*value.cast::<timeval>() }));
+                remember_send_time_limit(socket, get_time_limit(unsafe { &*value.cast::<timeval>() }));
             } else if libc::SO_RCVTIMEO == name {
                 // remember the latest value (the option may be set any number of times)
-                _ = RECV_TIME_LIMIT.insert(socket, get_time_limit(unsafe { &*value.cast::<timeval>() }));
+                remember_recv_time_limit(socket, get_time_limit(unsafe { &*value.cast::<timeval>() }));
             }
         }
         r
